@@ -1,6 +1,6 @@
 """C13 — tagged fields: any order accepted, duplicates and missing fields reported."""
-import itertools
-from .. import common as C, structs as S, valgen as V, refcodec as R
+import itertools, os, random, shutil
+from .. import common as C, structs as S, valgen as V, refcodec as R, labgen as L
 
 LEAN_MODULES = ["ZvtVerif.Properties.C13", "ZvtVerif.Properties.C13S"]
 ASSUMPTIONS = ["canonical value domain of DESIGN.md §5.1", "a Vec field's consecutive elements form one group"]
@@ -25,22 +25,8 @@ def default_of(layout, ty):
     return None
 
 
-def run(ctx, out):
-    layout = S.load_schema(ctx.schema)
-    rng = ctx.rng
-    thorough = ctx.search_tier == "thorough"
-    per = 300 if thorough else 40
-    max_perm = 6 if thorough else 5
-    ops, want, kinds = [], [], []
-
-    def add(s, body, expected, kind):
-        if len(body) > 65535:
-            return
-        ops.append(f"dec {s['name']} {C.hexs(frame(s, body))}")
-        want.append(expected)
-        kinds.append(kind)
-
-    structs = [s for s in layout["structs"] if any(f["tag"] is not None for f in s["fields"])]
+def top_level_mutations(layout, structs, rng, per, max_perm, add):
+    """permutations / duplicates / removed mandatory groups / foreign tags for the tagged fields of every struct of `structs`"""
     for s in structs:
         sty = {"k": "struct", "name": s["name"]}
         # positional fields must precede the tagged ones for the tagged part to be a suffix of the body
@@ -125,6 +111,118 @@ def run(ctx, out):
                         canon2 = pos + b"".join(seq[:j])
                         exp = f"ok {V.show(layout, sty, v2)} rem={C.hexs(rest)} reenc={C.hexs(frame(s, canon2))}"
                     add(s, body, exp, "foreign")
+
+WHAT = {"duplicate": "a tag occurring twice is not rejected as a duplicate naming that tag",
+        "missing": "absent mandatory tagged fields are not all named (sorted) in the error",
+        "foreign": "an unknown tag disturbs fields already decoded / is not handed back with the bytes following it"}
+
+
+def lab_structs(seed, thorough, plain_names=False):
+    rng = random.Random(seed * 104729 + 13)
+    return L.generate(rng, 80 if thorough else 30, tag_heavy=True, plain_names=plain_names)
+
+
+def lab_binaries():
+    from . import c12 as C12
+    return os.path.join(C12.LAB, "target/debug/derive_lab"), os.path.join(C.LEAN, ".lake/build/bin/labdriver")
+
+
+def build_lab(structs):
+    """translate + compile the generated structs with the working-tree macro and build the schema-interpreter driver for them"""
+    from . import c12 as C12
+    tschema, err = C12.build_lab(structs)
+    if err:
+        return "translator failed on the lab source: " + err
+    shutil.copyfile(os.path.join(C.REPO, "Cargo.lock"), os.path.join(C12.LAB, "Cargo.lock"))
+    rc, o, e = C.run(["cargo", "build", "--offline"], cwd=C12.LAB)
+    if rc != 0:
+        return "generated well-formed structs must compile: " + e[-1200:]
+    rc, o, e = C.run(["lake", "build", "labdriver"], cwd=C.LEAN)
+    if rc != 0:
+        return "labdriver: " + (o + e)[-600:]
+    return None
+
+
+def lab_family(ctx, out, thorough):
+    """the same families for USER-DEFINED structs (the macro is what C13 is about, not the shipped packets): tag-heavy random structs
+    whose numbers include confusable ones (XX / 1FXX / FFXX with the same XX; numbers differing in one high bit)"""
+    structs, tops = lab_structs(ctx.seed, thorough)
+    err = build_lab(structs)
+    if err:
+        out.disagreements.append({"family": "derive_lab (C13)", "op": "build the generated structs", "impl": err, "model": ""})
+        # search on: the same structs with neutral field names (a field name captured by the macro's own locals is a compile error)
+        structs, tops = lab_structs(ctx.seed, thorough, plain_names=True)
+        if build_lab(structs):
+            return
+        ctx.lab_plain_names = True
+    layout = R.load_layout({"structs": structs})
+    rng = random.Random(ctx.seed + 77)
+    ops, want, kinds = [], [], []
+
+    def add(s, body, expected, kind):
+        if len(body) > 65535:
+            return
+        ops.append(f"dec {s['name']} {C.hexs(frame(s, body))}")
+        want.append(expected)
+        kinds.append("lab-" + kind)
+
+    cand = [layout["by_name"][n] for n in tops if any(f["tag"] is not None for f in layout["by_name"][n]["fields"])]
+    top_level_mutations(layout, cand, rng, 12 if thorough else 5, 4, add)
+    hb, db = lab_binaries()
+    impl = C.run_lines(hb, ops, shards=C.NCPU)
+    model = C.run_lines(db, ops, shards=C.NCPU)
+    out.compare("dec(lab: permuted/duplicated/pruned/spliced)", ops, impl, model)
+    out.evaluations += len(ops)
+    n_conf = sum(1 for s in cand if len({f["tag"] & 0xff for f in s["fields"] if f["tag"] is not None}) < len([f for f in s["fields"] if f["tag"] is not None]))
+    out.distribution["lab structs"] = len(cand)
+    out.distribution["lab structs with numbers sharing their low byte"] = n_conf
+    for o, r, w, kd in zip(ops, impl, want, kinds):
+        out.count(kd)
+        out.nontrivial.add(o)
+        if r != w:
+            i = next((j for j in range(min(len(r), len(w))) if r[j] != w[j]), min(len(r), len(w)))
+            sdef = layout["by_name"][o.split()[1]]
+            out.oracle_failures.append({"op": o, "observed": "…" + r[max(0, i - 80):i + 160], "expected": "…" + w[max(0, i - 80):i + 160], "key": o[:160],
+                                        "what": f"user-defined struct {sdef['name']} with tagged fields {[hex(f['tag']) for f in sdef['fields'] if f['tag'] is not None]}: "
+                                                + WHAT.get(kd[4:], "tagged fields in a different order do not decode to the same value")})
+
+
+def prepare_replay(ctx):
+    """ops on `lab::` structs go to the regenerated lab binaries, everything else to harness and driver"""
+    structs, _ = lab_structs(ctx.seed, ctx.tier == "thorough")
+    if build_lab(structs):
+        structs, _ = lab_structs(ctx.seed, ctx.tier == "thorough", plain_names=True)
+        build_lab(structs)
+    hb, db = lab_binaries()
+
+    def runner(ops):
+        lab = [o for o in ops if " lab::" in o]
+        rest = [o for o in ops if " lab::" not in o]
+        ri, rm = ctx.pair(rest) if rest else ([], [])
+        li, lm = (C.run_lines(hb, lab), C.run_lines(db, lab)) if lab else ([], [])
+        a, b = iter(zip(ri, rm)), iter(zip(li, lm))
+        res = [next(b) if " lab::" in o else next(a) for o in ops]
+        return [x for x, _ in res], [y for _, y in res]
+    return runner
+
+
+def run(ctx, out):
+    layout = S.load_schema(ctx.schema)
+    rng = ctx.rng
+    thorough = ctx.search_tier == "thorough"
+    per = 300 if thorough else 40
+    max_perm = 6 if thorough else 5
+    ops, want, kinds = [], [], []
+
+    def add(s, body, expected, kind):
+        if len(body) > 65535:
+            return
+        ops.append(f"dec {s['name']} {C.hexs(frame(s, body))}")
+        want.append(expected)
+        kinds.append(kind)
+
+    structs = [s for s in layout["structs"] if any(f["tag"] is not None for f in s["fields"])]
+    top_level_mutations(layout, structs, rng, per, max_perm, add)
     # --- the same faults one to three nesting levels down: inside a struct held in a tagged (optional) field of the enclosing type.
     # The error of the nested decoder must surface; the enclosing field must not silently read as absent.
     tagged_suffix = S.tagged_suffix
@@ -221,7 +319,8 @@ def run(ctx, out):
                                                  "nested-duplicate": "a tag occurring twice inside a nested container is not rejected as a duplicate naming that tag",
                                                  "nested-missing": "mandatory tagged fields absent from a nested container are not reported (sorted) in the error",
                                                  "foreign": "an unknown tag disturbs fields already decoded / is not handed back with the bytes following it"}.get(kd, "tagged fields in a different order do not decode to the same value")})
+    lab_family(ctx, out, thorough)
     out.rule = (f"canonical values of the {len(structs)} types with tagged fields ({per} each): all permutations of the encoded tagged-field groups up to {max_perm} present groups (24 sampled above / after the 6th value), "
                 "a duplicate of every group at every non-adjacent position, every non-empty subset of mandatory groups removed, a foreign tag (00 and a random unknown number, each bare and followed by random bytes) spliced in before every group; other orders, duplicates and removed mandatory groups also inside containers one to three nesting levels down (reached through present tagged fields). "
-                "The hand-written date-time container (tag 34): all 1 555 sequences of up to 4 elements over {date, time, second date, second time, two unknown tags}. Expected outcomes computed from the value alone; implementation = model = expectation. non-trivial = distinct inputs")
+                "The hand-written date-time container (tag 34): all 1 555 sequences of up to 4 elements over {date, time, second date, second time, two unknown tags}. The first four families again on 30 (thorough: 80) randomly generated USER-DEFINED structs compiled with the working-tree derive macro: mostly tagged, half of the fields mandatory, numbers that differ only in their prefix byte (XX / 1FXX / FFXX) or in one high bit. Expected outcomes computed from the value alone; implementation = model = expectation. non-trivial = distinct inputs")
     out.samples = [ops[0][:200], {"op": ops[len(ops)//2][:160], "impl": impl[len(ops)//2][:200], "kind": kinds[len(ops)//2]}]
